@@ -369,6 +369,61 @@ theorem engCmpVV_default_iter_coordinatewise (st : St) (op : String) (tc : List 
     rw [eob, List.getElem?_map, List.getElem?_eq_getElem hk, hkc]; rfl
   exact hv k _ _ _ gr ga gb
 
+/-- **`AsSameType()`, coordinate-wise, end to end**: as `engCmpVV_default_iter_coordinatewise`, with the result of the
+    operands' element type holding the 1/0 form at every coordinate. -/
+theorem engCmpVV_same_iter_coordinatewise (st : St) (op : String) (tc : List String) (a b : Dense)
+    (hshape : b.ap.shape = a.ap.shape) (hdt : a.dt = b.dt) (htc : a.dt ∈ tc)
+    (hu : (a.requiresIterator || b.requiresIterator || !sameOrd a b) = true)
+    (hma : a.mask = none) (hmb : b.mask = none) (hlb : b.win.len ≠ 1) (hl1 : denseLen a.shape ≠ 1)
+    (hcap : a.win.len ≤ a.win.cap) (hne : a.ap.shape ≠ [])
+    (hcol : a.ap.o.col = true → isScalarEquiv a.ap.shape = false ∧ isVector a.ap.shape = false)
+    (hca : C13.Covers a.ap (a.win.len : Int)) (hia : InjectivePat a.ap.shape a.ap.strides)
+    (hcb : C13.Covers b.ap (b.win.len : Int)) (hib : InjectivePat b.ap.shape b.ap.strides)
+    (hA : InBuf st a.win.buf a.win.off a.win.len) (hB : InBuf st b.win.buf b.win.off b.win.len) :
+    ∃ out r, engCmpVV st op tc a b { same := true } = .ok out ∧ out.ret = .fresh r ∧ r.dt = a.dt ∧
+      r.ap.shape = a.ap.shape ∧ r.ap.strides = Dense.defaultStrides a.ap.o.col a.ap.shape ∧
+      (∀ c ∈ allCoords a.ap.shape, ∃ x y,
+        cell st a.win.buf (a.win.off + (dot c a.ap.strides).toNat) = some x ∧
+        cell st b.win.buf (b.win.off + (dot c b.ap.strides).toNat) = some y ∧
+        cell out.st r.win.buf (dot c r.ap.strides).toNat = some (.app2 (op ++ ".same") x y)) ∧
+      (∀ b' k, b' < st.heap.size → cell out.st b' k = cell st b' k) := by
+  have hp : ∀ d ∈ a.ap.shape, 0 < d := hca.2.2.1
+  obtain ⟨hoa, _⟩ := C13.wf_offsets a a.win.len hca hia
+  obtain ⟨hob, _⟩ := C13.wf_offsets b b.win.len hcb hib
+  obtain ⟨hor, hnd⟩ := freshOf_offsets_wf st a.dt a.shape a.ap.o.col hp hne hcol
+  have hsh : shapeEq a.shape b.shape = true := by
+    have : b.shape = a.shape := hshape
+    rw [this]; exact shapeEq_self _
+  obtain ⟨out, r, h, hret, hrdt, hrs, hrst, _, _, _, hv, hfr⟩ :=
+    engCmpVV_same_iter st op tc a b hsh hdt htc hu hma hmb hlb hl1 hcap hor hoa hob hnd hA hB
+  refine ⟨out, r, h, hret, hrdt, hrs, hrst, ?_, hfr⟩
+  have hlr : r.ap.strides.length = r.ap.shape.length := by
+    rw [hrst, hrs]
+    cases hc : a.ap.o.col with
+    | false => simp [Dense.defaultStrides, calcStrides_length]
+    | true =>
+      obtain ⟨h1, h2⟩ := hcol hc
+      have := (colDefault_wf a.ap.shape hp h1 h2).2.1
+      simp only [Dense.defaultStrides, if_true]
+      exact this
+  have eor : r.offsets = (allCoords a.ap.shape).map (fun c => dot c r.ap.strides) := by
+    unfold Dense.offsets
+    rw [offsets_rowmajor r.ap hlr (by rw [hrs]; exact hp), hrs]; rfl
+  have eoa : a.offsets = (allCoords a.ap.shape).map (fun c => dot c a.ap.strides) := by
+    unfold Dense.offsets; exact offsets_rowmajor a.ap hca.1 hp
+  have eob : b.offsets = (allCoords a.ap.shape).map (fun c => dot c b.ap.strides) := by
+    unfold Dense.offsets
+    rw [offsets_rowmajor b.ap hcb.1 hcb.2.2.1, hshape]
+  intro c hc
+  obtain ⟨k, hk, hkc⟩ := List.getElem_of_mem hc
+  have gr : r.offsets[k]? = some (dot c r.ap.strides) := by
+    rw [eor, List.getElem?_map, List.getElem?_eq_getElem hk, hkc]; rfl
+  have ga : a.offsets[k]? = some (dot c a.ap.strides) := by
+    rw [eoa, List.getElem?_map, List.getElem?_eq_getElem hk, hkc]; rfl
+  have gb : b.offsets[k]? = some (dot c b.ap.strides) := by
+    rw [eob, List.getElem?_map, List.getElem?_eq_getElem hk, hkc]; rfl
+  exact hv k _ _ _ gr ga gb
+
 /-! ## non-vacuity -/
 namespace Ex
 def st : St := { heap := #[#[.src 0 0, .src 0 1, .src 0 2, .src 0 3], #[.src 1 0, .src 1 1, .src 1 2, .src 1 3],
@@ -433,6 +488,12 @@ def taT : Dense := { ap := { shape := [2, 2], strides := [1, 2] }, old := some {
                      win := ⟨0, 0, 4, 4⟩, dt := "f64" }
 example := engCmpVV_default_iter_coordinatewise st "gt" ordTypes taT tb rfl rfl (by decide) (by decide) rfl rfl (by decide) (by decide)
   (by decide) (by intro h; cases h)
+  ⟨rfl, by decide, by decide, by decide⟩ (by
+    have h := C13.T_distinct [1, 0] [2, 2] [2, 1] (by decide) rfl (C13.default_distinct [2, 2])
+    simpa [gatherI, taT] using h)
+  ⟨rfl, by decide, by decide, by decide⟩ (C13.default_distinct [2, 2]) inA inB
+example := engCmpVV_same_iter_coordinatewise st "gt" ordTypes taT tb rfl rfl (by decide) (by decide) rfl rfl (by decide) (by decide)
+  (by decide) (by decide) (by intro h; cases h)
   ⟨rfl, by decide, by decide, by decide⟩ (by
     have h := C13.T_distinct [1, 0] [2, 2] [2, 1] (by decide) rfl (C13.default_distinct [2, 2])
     simpa [gatherI, taT] using h)
